@@ -144,7 +144,9 @@ impl RecoverRunner {
 
         // Update components.
         indexer.insert_batch(indices);
-        sequence.store(latest_sequence + 1, Ordering::Release);
+        // The tombstone log is not checksummed: a damaged or misdirected page can carry any sequence, up to
+        // `u64::MAX`. Do not overflow (and panic in builds with overflow checks) on such a device.
+        sequence.store(latest_sequence.saturating_add(1), Ordering::Release);
         block_manager.init(&clean_blocks);
 
         let elapsed = now.elapsed();
